@@ -1,0 +1,83 @@
+/*
+ * Atree - Scalable Arrays and Ordered Maps
+ *
+ * Copyright Flow Foundation
+ *
+ * Licensed under the Apache License, Version 2.0 (the "License");
+ * you may not use this file except in compliance with the License.
+ * You may obtain a copy of the License at
+ *
+ *   http://www.apache.org/licenses/LICENSE-2.0
+ *
+ * Unless required by applicable law or agreed to in writing, software
+ * distributed under the License is distributed on an "AS IS" BASIS,
+ * WITHOUT WARRANTIES OR CONDITIONS OF ANY KIND, either express or implied.
+ * See the License for the specific language governing permissions and
+ * limitations under the License.
+ */
+
+//go:build verif
+
+package atree
+
+//@ # ---------------------------------------------------------------- map.go (C02 count, C10 notification / inline decision, C06 prefix)
+
+//@ func (m *OrderedMap) notifyParentIfNeeded() (err)  serves C10
+//@   ghostdef notified == old(notified) + 1
+//@   ensures err == nil && old(m.parentUpdater) == nil ==> m.parentUpdater == nil
+//@   modifies heap, ghost.notified
+
+//@ iface Digester.Digest(level) (d, err)
+//@   pure
+
+//@ iface DigesterBuilder.Digest(hip, value) (d, err)
+//@   ensures err == nil ==> d != nil
+//@   modifies basicDigester.circleHash64, basicDigester.blake3Hash, basicDigester.msg, basicDigester.scratch, alloc
+
+//@ func (m *OrderedMap) setCallbackWithChild(comparator, hip, key, child, maxInlineSize)  serves C10 C11
+//@   modifies Array.parentUpdater, OrderedMap.parentUpdater, alloc
+
+//@ func (m *OrderedMap) set(comparator, hip, key, value) (existing, err)  serves C02 C10
+//@   requires m.Storage != nil && m.root != nil && m.digesterBuilder != nil && hip != nil && comparator != nil && key != nil && value != nil
+//@   ensures[C10] err == nil ==> notified > old(notified)
+//@   modifies heap, ghost.sto, ghost.stored, ghost.touched, ghost.notified, alloc
+
+//@ func (m *OrderedMap) remove(comparator, hip, key) (k, v, err)  serves C02 C10
+//@   requires m.Storage != nil && m.root != nil && m.digesterBuilder != nil && hip != nil && comparator != nil && key != nil
+//@   ensures[C10] err == nil ==> notified > old(notified)
+//@   modifies heap, ghost.sto, ghost.stored, ghost.touched, ghost.notified, alloc
+
+//@ func (m *OrderedMap) PopIterate(fn) (err)  serves C02 C10
+//@   requires m.Storage != nil && m.root != nil && fn != nil
+//@   ensures[C10] err == nil ==> notified > old(notified)
+//@   modifies heap, ghost.sto, ghost.stored, ghost.touched, ghost.notified, alloc
+
+//@ func (m *MapDataSlab) Inlinable(maxInlineSize) (r)  serves C10
+//@   requires m.elements != nil && elsSize(m.elements) <= 4294967000
+//@   ensures r == (m.extraData != nil && 14 + elsSize(m.elements) <= maxInlineSize)
+//@   pure
+
+//@ func (m *MapDataSlab) Inline(storage) (err)  serves C06 C09 C10
+//@   requires storage != nil && m.elements != nil && elsSize(m.elements) <= 4294967000
+//@   ensures old(m.inlined) ==> err != nil && isFatal(err)
+//@   ensures err == nil ==> m.inlined && m.header.size == 14 + elsSize(m.elements) && sto == upd(old(sto), m.header.slabID, nil) && m.header.slabID == old(m.header.slabID)
+//@   ensures err != nil ==> m.header == old(m.header) && m.inlined == old(m.inlined) && categorised(err)
+//@   modifies m.header, m.inlined, ghost.sto, ghost.touched, alloc
+
+//@ func (m *MapDataSlab) Uninline(storage) (err)  serves C06 C09 C10
+//@   requires storage != nil && m.elements != nil && elsSize(m.elements) <= 4294967000
+//@   ensures !old(m.inlined) ==> err != nil && isFatal(err) && m.header == old(m.header)
+//@   ensures old(m.inlined) ==> !m.inlined && m.header.size == 2 + elsSize(m.elements) && m.header.slabID == old(m.header.slabID)
+//@   ensures err == nil ==> sto[m.header.slabID] == m && has(stored, m)
+//@   modifies m.header, m.inlined, ghost.sto, ghost.stored, ghost.touched, alloc
+
+//@ func (m *OrderedMap) Storable(storage, address, maxInlineSize) (st, err)  serves C10
+//@   requires m.Storage != nil && isMapSlab(m.root)
+//@   requires is(m.root, *MapDataSlab) ==> as(m.root, *MapDataSlab).elements != nil && elsSize(as(m.root, *MapDataSlab).elements) <= 4294967000 && as(m.root, *MapDataSlab).header.slabID != SlabIDUndefined
+//@   ensures[C10] err == nil && is(m.root, *MapMetaDataSlab) ==> st == iface(SlabIDStorable(mhdrOf(m.root).slabID))
+//@   ensures[C10] err == nil && is(m.root, *MapDataSlab) ==> as(m.root, *MapDataSlab).header.slabID == old(as(m.root, *MapDataSlab).header.slabID) &&
+//@        ite(as(m.root, *MapDataSlab).inlined, st == m.root, st == iface(SlabIDStorable(as(m.root, *MapDataSlab).header.slabID)))
+//@   ensures[C10] err == nil && is(m.root, *MapDataSlab) ==> as(m.root, *MapDataSlab).inlined ==
+//@        old(as(m.root, *MapDataSlab).extraData != nil && 14 + elsSize(as(m.root, *MapDataSlab).elements) <= maxInlineSize)
+//@   ensures m.root == old(m.root)
+//@   modifies as(m.root, *MapDataSlab).header, as(m.root, *MapDataSlab).inlined, ghost.sto, ghost.stored, ghost.touched, alloc
